@@ -520,6 +520,8 @@ class CFG:
             x = agenda.pop()
             for e in incoming[x]:
                 # assert e.head in T
+                if not all((b in C) for b in e.body):
+                    continue  # a dead rule does not make its symbols reachable
                 for b in e.body:
                     if b not in T and b in C:
                         T.add(b)
